@@ -71,7 +71,12 @@ def _(fn):
 @affine_inputs.register(Binary)
 def _(fn):
     if fn.op in (ops.add, ops.sub):
-        return affine_inputs(fn.lhs) | affine_inputs(fn.rhs)
+        # An input is affine in the sum unless either side depends on it non-affinely.
+        lhs_nonaffine = _real_inputs(fn.lhs) - affine_inputs(fn.lhs)
+        rhs_nonaffine = _real_inputs(fn.rhs) - affine_inputs(fn.rhs)
+        return (
+            affine_inputs(fn.lhs) | affine_inputs(fn.rhs)
+        ) - lhs_nonaffine - rhs_nonaffine
     if fn.op is ops.truediv:
         return affine_inputs(fn.lhs) - _real_inputs(fn.rhs)
     if isinstance(fn.op, ops.GetitemOp):
@@ -91,6 +96,8 @@ def _(fn):
 
 @affine_inputs.register(Reduce)
 def _(fn):
+    if fn.op is not ops.add:
+        return frozenset()  # e.g. a max or product of affine terms is not affine
     return affine_inputs(fn.arg) - fn.reduced_vars
 
 
